@@ -639,6 +639,7 @@ class PCBO(PUBO):
         """
         # use self.__class__ here because PCSO uses this code as well.
         d = super(self.__class__, self).__round__(ndigits)
+        d._ancilla = self._ancilla
         d._constraints = self.constraints
         return d
 
